@@ -547,6 +547,11 @@ class Skeleton:
                     a_, b_ = (c[3], c[4]) if c[0] == 'if' else (c[2], c[3])
                     # an early return on one side does not count
                     live = [x for x in (a_, b_) if not self.ends_with_return(x)]
+                    acting = [x for x in (a_, b_) if self._has_match(x) or self.has_grammar_action(x)]
+                    if len(acting) == 1:
+                        # whichever way the test is written (early return of the empty case, or the work inside the branch): the
+                        # side that does something is what the function does first
+                        return self._first_match(acting[0])
                     if len(live) == 1 and not self._has_match(live[0]) and not self.has_grammar_action(live[0]):
                         continue
                     if len(live) == 1:
